@@ -11,6 +11,7 @@ import (
 	"runtime"
 	"sort"
 	"strconv"
+	"strings"
 	"sync"
 	"testing"
 	"time"
@@ -20,6 +21,9 @@ import (
 	"github.com/zmap/zlint/v3/lint"
 	"pgregory.net/rapid"
 
+	"golang.org/x/net/idna"
+
+	dt "verifharness/dertree"
 	"verifharness/engine"
 	"verifharness/gen"
 	"verifharness/stats"
@@ -39,6 +43,115 @@ type program struct {
 	Workers    [][]op              `json:"workers"`
 	GOMAXPROCS int                 `json:"gomaxprocs"`
 	Runs       int                 `json:"runs"`
+	// the hammer: HammerWorkers goroutines lint HammerObjs - and never-seen-before variants of
+	// them, derived from FreshSeed - HammerIters times each through a registry holding only the Focus lints
+	Focus         []string      `json:"focus,omitempty"`
+	HammerObjs    []engine.Case `json:"hammer_objs,omitempty"`
+	HammerIters   int           `json:"hammer_iters,omitempty"`
+	HammerWorkers int           `json:"hammer_workers,omitempty"`
+	FreshSeed     uint64        `json:"fresh_seed,omitempty"`
+}
+
+// freshVariant gives the certificate names nobody has seen before in this process: three dNSNames whose first
+// label is a newly minted A-label (ACE prefix in lower, upper or mixed case), derived from (seed, w, i) alone.
+// Caches keyed by content only fill on first sight, so only fresh content makes their writers run.
+func freshVariant(der []byte, seed uint64, w, i int) []byte {
+	v, err := gen.ViewCert(der)
+	if err != nil {
+		return der
+	}
+	alphabet := []rune("abcdefghijklmnopqrstuvwxyz0123456789\u00fc\u00e9\u00f1\u00e5\u0431\u0434\u03bb\u4e2d")
+	x := seed*6364136223846793005 + uint64(w)*1442695040888963407 + uint64(i)*2862933555777941757 + 1
+	var gns []*dt.Node
+	for j := 0; j < 3; j++ {
+		var rs []rune
+		for k := 0; k < 7; k++ {
+			x = x*6364136223846793005 + 1442695040888963407
+			rs = append(rs, alphabet[(x>>33)%uint64(len(alphabet))])
+		}
+		rs = append(rs, '\u00fc')
+		a, err := idna.Punycode.ToASCII(string(rs))
+		if err != nil || !strings.HasPrefix(a, "xn--") {
+			a = "fresh" + fmt.Sprint(x>>40)
+		} else {
+			a = []string{"xn--", "XN--", "Xn--", "xn--"}[(w+i+j)%4] + a[4:]
+		}
+		gns = append(gns, gen.GNDNS([]byte(a+".example.com")))
+	}
+	v.SetSAN(false, gns...)
+	return v.DER()
+}
+
+// hammer: the concurrent phase first (nothing warmed up), the sequential reference afterwards.
+func hammer(p program) (sig, msg string) {
+	if len(p.Focus) == 0 || len(p.HammerObjs) == 0 || p.HammerIters == 0 {
+		return "", ""
+	}
+	reg, err := lint.GlobalRegistry().Filter(lint.FilterOptions{IncludeNames: p.Focus})
+	if err != nil {
+		return "", ""
+	}
+	W := p.HammerWorkers
+	if W < 2 {
+		W = 2
+	}
+	old := runtime.GOMAXPROCS(W)
+	defer runtime.GOMAXPROCS(old)
+	object := func(w, i int) engine.Case {
+		c := p.HammerObjs[(w*7+i)%len(p.HammerObjs)]
+		if c.Kind == gen.Cert && (w+i)%3 == 0 {
+			c.DER = freshVariant(c.DER, p.FreshSeed, w, i)
+		}
+		return c
+	}
+	got := make([][]string, W)
+	panics := make([]string, W)
+	var wg sync.WaitGroup
+	start := make(chan struct{})
+	for w := 0; w < W; w++ {
+		got[w] = make([]string, p.HammerIters)
+		wg.Add(1)
+		go func(w int) {
+			defer wg.Done()
+			defer func() {
+				if r := recover(); r != nil {
+					panics[w] = fmt.Sprint(r)
+				}
+			}()
+			<-start
+			for i := 0; i < p.HammerIters; i++ {
+				got[w][i] = lintOne(object(w, i), reg)
+			}
+		}(w)
+	}
+	done := make(chan struct{})
+	go func() { wg.Wait(); close(done) }()
+	close(start)
+	select {
+	case <-done:
+	case <-time.After(120 * time.Second):
+		buf := make([]byte, 1<<20)
+		n := runtime.Stack(buf, true)
+		return "deadlock", fmt.Sprintf("%d goroutines linting %d objects and fresh variants of them with %v did not finish within 120 s; goroutines:\n%s", W, len(p.HammerObjs), p.Focus, buf[:n])
+	}
+	for w, pm := range panics {
+		if pm != "" {
+			return "panic", fmt.Sprintf("hammer worker %d panicked: %s", w, pm)
+		}
+	}
+	ref, err := lint.GlobalRegistry().Filter(lint.FilterOptions{IncludeNames: p.Focus})
+	if err != nil {
+		return "", ""
+	}
+	for w := 0; w < W; w++ {
+		for i := 0; i < p.HammerIters; i++ {
+			c := object(w, i)
+			if d := lintOne(c, ref); d != got[w][i] {
+				return "differs-from-sequential", fmt.Sprintf("hammer worker %d, iteration %d (%s, fresh=%v) with lints %v: concurrently %s, alone %s", w, i, c.Base, (w+i)%3 == 0, p.Focus, got[w][i], d)
+			}
+		}
+	}
+	return "", ""
 }
 
 // ownDocs: configurations a worker puts on a filtered registry of its own (each changes the verdict of one
@@ -276,7 +389,7 @@ func runProgram(p program) (sig, msg string) {
 			return e[0], e[1]
 		}
 	}
-	return "", ""
+	return hammer(p)
 }
 
 // appliesSafely asks a fresh instance of the lint whether it applies (a panic counts as no).
@@ -346,14 +459,15 @@ func TestC10(t *testing.T) {
 			for i, n := 0, rapid.IntRange(1, 3).Draw(rt, "nfilters"); i < n; i++ {
 				p.Filters = append(p.Filters, engine.DrawValidFilter(rt, names))
 			}
-			// lint focus: three certificate lints per program (the registry is walked round-robin, so one quick run
-			// visits nearly every lint once), up to four corpus certificates each on which the lint declares
+			// lint focus: four certificate lints per program (the registry is walked round-robin, so one quick run
+			// visits nearly every lint once), up to three corpus certificates each on which the lint declares
 			// itself applicable - their bodies then run side by side in the sweeping workers
-			for i := 0; i < 3; i++ {
+			for i := 0; i < 4; i++ {
 				l := certLints[nextLint%len(certLints)]
 				nextLint++
+				p.Focus = append(p.Focus, l.Name)
 				found := 0
-				for j := 0; j < len(parsedCorpus) && found < 4; j++ {
+				for j := 0; j < len(parsedCorpus) && found < 3; j++ {
 					k := (j + nextLint*37) % len(parsedCorpus)
 					if appliesSafely(l, parsedCorpus[k].cert) {
 						found++
@@ -362,13 +476,14 @@ func TestC10(t *testing.T) {
 					}
 				}
 			}
+			p.HammerObjs, p.HammerIters, p.HammerWorkers, p.FreshSeed = append([]engine.Case{}, p.Objects...), stats.Scale(150, 400), 8, uint64(rapid.IntRange(1, 1<<30).Draw(rt, "fresh"))
 			nobj := rapid.IntRange(3, 12).Draw(rt, "nobj")
 			// one program in four concentrates on revocation lists, one in eight on OCSP responses: lints of
 			// those kinds are few, so shared state inside them only shows when many workers lint that kind
 			// at the same time (the corpus CRLs are walked round-robin, findings included)
 			focus := rapid.IntRange(0, 7).Draw(rt, "focus")
 			if focus <= 2 {
-				p.Objects = nil // kind-focused programs stay pure
+				p.Objects = nil // kind-focused programs stay pure (their hammer keeps the focus objects)
 				nobj += 6
 			}
 			for i := 0; i < nobj; i++ {
@@ -535,4 +650,41 @@ func TestReplay(t *testing.T) {
 			}
 		}
 	}
+}
+
+// TestHammerProbe (development aid, VERIF_HAMMER_FOCUS=lint,lint): runs the hammer alone a number of times.
+func TestHammerProbe(t *testing.T) {
+	focus := os.Getenv("VERIF_HAMMER_FOCUS")
+	if focus == "" {
+		t.Skip("no focus")
+	}
+	co := gen.LoadCorpus()
+	p := program{Focus: strings.Split(focus, ","), HammerIters: 150, HammerWorkers: 8}
+	for _, n := range p.Focus {
+		l := lint.GlobalRegistry().CertificateLints().ByName(n)
+		found := 0
+		for _, o := range co.Certs {
+			if c, ok := gen.ParseCert(o.DER); ok && l != nil && found < 4 && appliesSafely(l, c) {
+				found++
+				p.Objects = append(p.Objects, engine.Case{Kind: o.Kind, DER: o.DER, Base: o.Name})
+			}
+		}
+	}
+	p.HammerObjs = p.Objects
+	for r := 0; r < 20; r++ {
+		p.FreshSeed = uint64(r + 1)
+		t0 := time.Now()
+		sig, msg := hammer(p)
+		t.Logf("run %d: %d objects, %s %s (%.2fs)", r, len(p.HammerObjs), sig, short(msg), time.Since(t0).Seconds())
+		if sig != "" {
+			break
+		}
+	}
+}
+
+func short(s string) string {
+	if len(s) > 300 {
+		return s[:300]
+	}
+	return s
 }
